@@ -182,6 +182,9 @@ struct View {
     base: Box<dyn Fn() -> I18nContext<Locale>>,
     scope: Box<dyn Fn() -> View>,
     mk_closure: Box<dyn Fn(&str) -> Box<dyn Fn() -> String>>,
+    /// a `Memo` derived from the context: kind "locale" = `Memo::new(|_| ctx.get_locale())`,
+    /// "t_string" / "td_string" = a memo over the reactive accessor; the returned closure reads the memo
+    mk_memo: Box<dyn Fn(&str) -> Box<dyn Fn() -> String>>,
 }
 
 fn render<V: IntoView>(v: V) -> String {
@@ -217,6 +220,23 @@ macro_rules! mk_view {
                     other => panic!("unknown closure kind {other}"),
                 }
             }),
+            mk_memo: Box::new(move |kind: &str| -> Box<dyn Fn() -> String> {
+                match kind {
+                    "locale" => {
+                        let m = Memo::new(move |_| ctx.get_locale());
+                        Box::new(move || m.get_untracked().as_str().to_string())
+                    }
+                    "t_string" => {
+                        let m = Memo::new(move |_| t_string!(ctx, $key).to_string());
+                        Box::new(move || m.get_untracked())
+                    }
+                    "td_string" => {
+                        let m = Memo::new(move |_| td_string!(ctx.get_locale(), $($full)+).to_string());
+                        Box::new(move || m.get_untracked())
+                    }
+                    other => panic!("unknown memo kind {other}"),
+                }
+            }),
         }
     }};
 }
@@ -234,6 +254,25 @@ fn view2(ctx: I18nContext<Locale, DeepKeys>) -> View {
     mk_view!(ctx, 2, leaf, [sub.deep.leaf], |c: I18nContext<Locale, DeepKeys>| view0(c.scope(ConstScope::<Locale, RootKeys>::new())))
 }
 
+/// Which known context is `x` a view of?  Identity probe through the public API only: write a distinguishable
+/// locale *untracked* (no subscriber is notified), see whether a representative view of each known context reads
+/// it, restore the previous value.
+fn ctx_id(x: &View, views: &[View], reps: &[usize]) -> Option<usize> {
+    let all = Locale::get_all();
+    for (k, &r) in reps.iter().enumerate() {
+        let a = (x.get_untracked)();
+        let b = (views[r].get_untracked)();
+        let t = *all.iter().find(|l| **l != a && **l != b).expect("three locales");
+        (x.set_untracked)(t);
+        let same = (views[r].get_untracked)() == t;
+        (x.set_untracked)(a);
+        if same {
+            return Some(k);
+        }
+    }
+    None
+}
+
 fn text_locale(s: &str) -> String {
     s.to_string()
 }
@@ -246,6 +285,17 @@ fn ops(req: &Value) -> Value {
     let mut closures: Vec<Box<dyn Fn() -> String>> = Vec::new();
     let mut owners: Vec<Owner> = Vec::new();
     let mut obs: Vec<Value> = Vec::new();
+    let mut memos: Vec<(Box<dyn Fn() -> String>, u8, String)> = Vec::new();
+    // owners addressable by the operations (model owner ids), kept views of rendered providers
+    let mut tree: Vec<Owner> = Vec::new();
+    let mut kept: Vec<Box<dyn std::any::Any>> = Vec::new();
+    // one representative view per context, in creation order (= the model's context numbering)
+    let mut reps: Vec<usize> = Vec::new();
+    let owner_at = |tree: &Vec<Owner>, s: &Value, k: &str| -> Owner {
+        let i = s[k].as_u64().unwrap_or_else(|| panic!("field {k}: expected index")) as usize;
+        assert!(i < tree.len(), "owner index {i} out of range");
+        tree[i].clone()
+    };
     let view_at = |views: &Vec<View>, s: &Value, k: &str| -> usize {
         let i = s[k].as_u64().unwrap_or_else(|| panic!("field {k}: expected index")) as usize;
         assert!(i < views.len(), "view index {i} out of range");
@@ -264,6 +314,7 @@ fn ops(req: &Value) -> Value {
                 });
                 owners.push(child);
                 views.push(view0(ctx));
+                reps.push(views.len() - 1);
                 json!({"view": views.len() - 1})
             }
             "sub" => {
@@ -281,7 +332,108 @@ fn ops(req: &Value) -> Value {
                 });
                 owners.push(child);
                 views.push(view0(ctx));
+                reps.push(views.len() - 1);
                 json!({"view": views.len() - 1})
+            }
+            "make_memo" => {
+                let v = view_at(&views, s, "view");
+                let kind = s["kind"].as_str().expect("kind").to_string();
+                let m = root_owner.with(|| (views[v].mk_memo)(&kind));
+                memos.push((m, views[v].level, kind));
+                json!({"memo": memos.len() - 1, "level": views[v].level})
+            }
+            "read_memo" => {
+                let i = s["memo"].as_u64().expect("memo") as usize;
+                assert!(i < memos.len(), "memo index out of range");
+                let text = root_owner.with(|| (memos[i].0)());
+                json!({"text": text, "kind": memos[i].2})
+            }
+            // `<I18nContextProvider>` rendered in a fresh top-level owner: the main context is provided in that owner
+            "provide_root" => {
+                let accept = opt_str(s, "accept_language");
+                let o = root_owner.with(|| Owner::current().unwrap().child());
+                let slot: Arc<Mutex<Option<I18nContext<Locale>>>> = Default::default();
+                let slot2 = slot.clone();
+                let view = o.with(|| {
+                    view! {
+                        <I18nContextProvider enable_cookie=false ssr_lang_header_getter=lang_opts(accept)>
+                            {
+                                *slot2.lock().unwrap() = Some(use_i18n());
+                                ()
+                            }
+                        </I18nContextProvider>
+                    }
+                    .into_any()
+                });
+                kept.push(Box::new(view));
+                let ctx = slot.lock().unwrap().take().expect("children of I18nContextProvider did not run");
+                let nv = view0(ctx);
+                let found = ctx_id(&nv, &views, &reps);
+                views.push(nv);
+                let cid = found.unwrap_or_else(|| {
+                    reps.push(views.len() - 1);
+                    reps.len() - 1
+                });
+                tree.push(o);
+                json!({"view": views.len() - 1, "owner": tree.len() - 1, "ctx": cid})
+            }
+            "child_owner" => {
+                let o = owner_at(&tree, s, "owner");
+                let c = o.with(|| Owner::current().unwrap().child());
+                tree.push(c);
+                json!({"owner": tree.len() - 1})
+            }
+            // `<I18nSubContextProvider>` rendered inside `owner`; its children capture `use_i18n()` and their owner
+            "provider" => {
+                let o = owner_at(&tree, s, "owner");
+                let initial = opt_str(s, "initial").map(|l| locale_of(&l));
+                let slot: Arc<Mutex<Option<(I18nContext<Locale>, Owner)>>> = Default::default();
+                let slot2 = slot.clone();
+                let view = o.with(|| match initial {
+                    Some(l) => view! {
+                        <I18nSubContextProvider initial_locale=Signal::stored(l) ssr_lang_header_getter=lang_opts(None)>
+                            {
+                                *slot2.lock().unwrap() = Some((use_i18n(), Owner::current().expect("owner")));
+                                ()
+                            }
+                        </I18nSubContextProvider>
+                    }
+                    .into_any(),
+                    None => view! {
+                        <I18nSubContextProvider ssr_lang_header_getter=lang_opts(None)>
+                            {
+                                *slot2.lock().unwrap() = Some((use_i18n(), Owner::current().expect("owner")));
+                                ()
+                            }
+                        </I18nSubContextProvider>
+                    }
+                    .into_any(),
+                });
+                kept.push(Box::new(view));
+                let (ctx, co) = slot.lock().unwrap().take().expect("children of I18nSubContextProvider did not run");
+                let nv = view0(ctx);
+                let found = ctx_id(&nv, &views, &reps);
+                views.push(nv);
+                let cid = found.unwrap_or_else(|| {
+                    reps.push(views.len() - 1);
+                    reps.len() - 1
+                });
+                tree.push(co);
+                json!({"view": views.len() - 1, "owner": tree.len() - 1, "ctx": cid})
+            }
+            // what `use_i18n()` finds when called in `owner` now
+            "use_ctx" => {
+                let o = owner_at(&tree, s, "owner");
+                let present = o.with(|| use_context::<I18nContext<Locale>>().is_some());
+                if present {
+                    let ctx = o.with(|| use_i18n());
+                    let nv = view0(ctx);
+                    let found = ctx_id(&nv, &views, &reps).expect("use_i18n() returned a context the harness never created");
+                    views.push(nv);
+                    json!({"view": views.len() - 1, "ctx": found})
+                } else {
+                    json!({"not_found": true})
+                }
             }
             "scope" => {
                 let v = view_at(&views, s, "view");
@@ -330,6 +482,9 @@ fn ops(req: &Value) -> Value {
     // final read-back of every view, after all pending effects ran
     let fin: Vec<Value> = views.iter().map(|v| json!((v.get_untracked)().as_str())).collect();
     drop(closures);
+    drop(memos);
+    drop(kept);
+    drop(tree);
     drop(views);
     drop(owners);
     drop(root_owner);
